@@ -7,6 +7,7 @@ import (
 	"go/ast"
 	"go/token"
 	"go/types"
+	"os"
 	"strconv"
 )
 
@@ -278,7 +279,16 @@ func (fc *FuncCtx) loopContract(n ast.Node) (*LoopContract, int) {
 		}
 		return lc, ord
 	}
-	return fc.contract.Loops[ord], ord
+	lc := fc.contract.Loops[ord]
+	if fs, ok := n.(*ast.ForStmt); ok && lc.Decreases == nil && fc.contract.Opts["nonterminating"] == "" {
+		// written for a range loop (which needs no variant) or simply without one: use the header's
+		if v := fc.autoVariant(fs); v != nil {
+			cp := *lc
+			cp.Decreases = v
+			return &cp, ord
+		}
+	}
+	return lc, ord
 }
 
 func (fc *FuncCtx) loopEnv(st *State, pre *State, at token.Pos) *CEnv {
@@ -313,8 +323,28 @@ func (fc *FuncCtx) execFor(st *State, x *ast.ForStmt, label string) *State {
 	if x.Init != nil {
 		st = fc.exec(st, x.Init)
 	}
+	if n, cv := fc.litCountingLoop(x); cv != nil {
+		return fc.execForUnrolled(st, x, cv, n, label)
+	}
 	lc, ord := fc.loopContract(x)
 	at := x.Body.Lbrace
+	// a counting loop `for i := 0; ...; i++` may be the rewrite of `for i := range`: the contract name of the
+	// range position (range_i) then denotes i
+	if cv := fc.countingVar(x); cv != nil {
+		if fc.rangeAlias == nil {
+			fc.rangeAlias = map[string]*types.Var{}
+		}
+		saved, had := fc.rangeAlias["range_i"]
+		fc.rangeAlias["range_i"] = cv
+		fc.rangeAlias["range_i"+strconv.Itoa(ord)] = cv
+		defer func() {
+			if had {
+				fc.rangeAlias["range_i"] = saved
+			} else {
+				delete(fc.rangeAlias, "range_i")
+			}
+		}()
+	}
 	pre := st.clone()
 	fc.checkInvariants(st, lc, ord, "inv.init", pre, at, x)
 
@@ -511,6 +541,17 @@ func (fc *FuncCtx) execRange(st *State, x *ast.RangeStmt, label string) *State {
 	}
 	st.ghost[ghostName] = mkMath("0")
 	st.ghost["range_i"] = mkMath("0")
+	// `for i := range s`: the contract may call the position i (the loop may be the rewrite of a counting loop)
+	var keyObj *types.Var
+	if kid, ok := x.Key.(*ast.Ident); ok && kid.Name != "_" && x.Tok == token.DEFINE {
+		switch coll.T.Underlying().(type) {
+		case *types.Slice, *types.Array, *types.Basic:
+			keyObj, _ = fc.info.Defs[kid].(*types.Var)
+		}
+	}
+	if keyObj != nil {
+		st.vars[keyObj] = Term{S: "0", T: keyObj.Type()}
+	}
 	// a range over a map visits every key exactly once (the map is checked not to be modified in the body):
 	// ghost set "visited" = keys already iterated; empty at entry, a subset of the domain at the head,
 	// equal to the domain at exit
@@ -533,6 +574,9 @@ func (fc *FuncCtx) execRange(st *State, x *ast.RangeStmt, label string) *State {
 	idx := fc.fresh("range_i", tInt)
 	h.ghost[ghostName] = mkMath(idx.S)
 	h.ghost["range_i"] = mkMath(idx.S)
+	if keyObj != nil {
+		h.vars[keyObj] = Term{S: idx.S, T: keyObj.Type()}
+	}
 	if !isMap && !isChan {
 		fc.assume(h, "(and (<= 0 "+idx.S+") (<= "+idx.S+" "+lenS+"))")
 	} else {
@@ -608,6 +652,9 @@ func (fc *FuncCtx) execRange(st *State, x *ast.RangeStmt, label string) *State {
 		next := mkMath("(+ " + idx.S + " 1)")
 		end.ghost[ghostName] = next
 		end.ghost["range_i"] = next
+		if keyObj != nil {
+			end.vars[keyObj] = Term{S: next.S, T: keyObj.Type()}
+		}
 		if isMap {
 			// the key of this iteration joins the visited set at the end of the body (an inner loop may have
 			// overwritten the unnumbered alias)
@@ -771,6 +818,7 @@ func (fc *FuncCtx) autoVariant(fs *ast.ForStmt) *Clause {
 	okExpr := true
 	ast.Inspect(bound, func(n ast.Node) bool {
 		switch x := n.(type) {
+		case nil:
 		case *ast.Ident, *ast.SelectorExpr, *ast.BasicLit, *ast.ParenExpr:
 		case *ast.CallExpr:
 			if f, ok := x.Fun.(*ast.Ident); !ok || f.Name != "len" {
@@ -788,13 +836,104 @@ func (fc *FuncCtx) autoVariant(fs *ast.ForStmt) *Clause {
 	if !okExpr {
 		return nil
 	}
-	text := exprStr(bound) + " - " + id.Name + extra
+	text := types.ExprString(bound) + " - " + id.Name + extra
 	if !up {
-		text = id.Name + " - (" + exprStr(bound) + ")" + extra
+		text = id.Name + " - (" + types.ExprString(bound) + ")" + extra
 	}
 	e, err := parseCExpr(text)
 	if err != nil {
+		if os.Getenv("GOVC_DEBUG") != "" {
+			fmt.Fprintln(os.Stderr, "autoVariant:", text, err)
+		}
 		return nil
 	}
 	return &Clause{Kind: "decreases", Text: text + " (derived from the loop header)", Expr: e, Src: "auto"}
+}
+
+// countingVar: the variable of `for i := 0; <cond>; i++` when the body does not assign it.
+func (fc *FuncCtx) countingVar(x *ast.ForStmt) *types.Var {
+	as, ok := x.Init.(*ast.AssignStmt)
+	if !ok || as.Tok != token.DEFINE || len(as.Lhs) != 1 || len(as.Rhs) != 1 {
+		return nil
+	}
+	lit, ok := as.Rhs[0].(*ast.BasicLit)
+	if !ok || lit.Value != "0" {
+		return nil
+	}
+	id, ok := as.Lhs[0].(*ast.Ident)
+	if !ok {
+		return nil
+	}
+	inc, ok := x.Post.(*ast.IncDecStmt)
+	if !ok || inc.Tok != token.INC {
+		return nil
+	}
+	pid, ok := inc.X.(*ast.Ident)
+	if !ok || pid.Name != id.Name {
+		return nil
+	}
+	v, _ := fc.info.Defs[id].(*types.Var)
+	if v == nil {
+		return nil
+	}
+	for _, l := range fc.modifiedLocs(x.Body) {
+		if l.obj == v {
+			return nil
+		}
+	}
+	return v
+}
+
+// litCountingLoop: `for i := 0; i < len(lit); i++` over a slice literal bound once to a local (see litSlice), with a
+// body that does not assign i: the number of iterations is static.
+func (fc *FuncCtx) litCountingLoop(x *ast.ForStmt) (int, *types.Var) {
+	cv := fc.countingVar(x)
+	if cv == nil {
+		return 0, nil
+	}
+	cond, ok := unparen(x.Cond).(*ast.BinaryExpr)
+	if x.Cond == nil || !ok || cond.Op != token.LSS {
+		return 0, nil
+	}
+	if id, ok := unparen(cond.X).(*ast.Ident); !ok || fc.info.ObjectOf(id) != cv {
+		return 0, nil
+	}
+	call, ok := unparen(cond.Y).(*ast.CallExpr)
+	if !ok || len(call.Args) != 1 {
+		return 0, nil
+	}
+	if f, ok := call.Fun.(*ast.Ident); !ok || f.Name != "len" {
+		return 0, nil
+	}
+	lid, ok := unparen(call.Args[0]).(*ast.Ident)
+	if !ok {
+		return 0, nil
+	}
+	elts := fc.litSlice(lid)
+	if elts == nil {
+		return 0, nil
+	}
+	return len(elts), cv
+}
+
+// execForUnrolled runs the body once per position with the counter a literal (complete: the bound is static).
+func (fc *FuncCtx) execForUnrolled(st *State, x *ast.ForStmt, cv *types.Var, n int, label string) *State {
+	var exits []*State
+	cur := st
+	for k := 0; k < n; k++ {
+		if cur.dead {
+			break
+		}
+		cur.vars[cv] = Term{S: strconv.Itoa(k), T: cv.Type()}
+		tgt := &jumpTarget{label: label, isLoop: true}
+		fc.breakTargets = append(fc.breakTargets, tgt)
+		end := fc.exec(cur, x.Body)
+		fc.breakTargets = fc.breakTargets[:len(fc.breakTargets)-1]
+		exits = append(exits, tgt.breaks...)
+		cur = fc.merge(append([]*State{end}, tgt.continues...))
+	}
+	if !cur.dead {
+		cur.vars[cv] = Term{S: strconv.Itoa(n), T: cv.Type()}
+	}
+	return fc.merge(append([]*State{cur}, exits...))
 }
